@@ -4,6 +4,7 @@ fn main() {
     let args = run::parse_args();
     match args.mode.clone() {
         Mode::Parent => parent(&args),
+        Mode::Child(k) if k == "conc" => child_conc(&args),
         Mode::Child(_) => child(&args),
         Mode::Replay(p) => run::replay(ID, &p),
     }
@@ -42,6 +43,10 @@ fn parent(args: &Args) {
     let ends = run::run_children(args, &spec, &mut out);
     run::classify_ends(&ends, &mut out, true);
     raise_float_findings(&mut out);
+    // record calls on one span from several threads
+    let cspec = ChildSpec::new("conc", args.get_u64("conc_shards", args.tier.pick(16, 64))).arg("rounds", args.get_u64("rounds", args.tier.pick(120, 1500))).timeout(900);
+    let ends = run::run_children(args, &cspec, &mut out);
+    run::classify_ends(&ends, &mut out, true);
     if out.sets.get("debug_assertions").map(|s| s.contains("true")).unwrap_or(false) {
         out.harness_errors.push("the release binary was built with debug assertions".into());
     }
@@ -84,7 +89,8 @@ fn parent(args: &Args) {
                    non-trivial = the record involves a field/span name, target or string value with a character JSON must escape, or shows a span \
                    with at least one record call after creation; distinct = distinct tuples (flatten,current_span,span_list, timer kind, span events on?, \
                    a value kind present in the event, span-list length (cap 3), max record steps of a span in scope (cap 3), name needs escape?, \
-                   value needs escape?, F8-affected?, macro-corpus vs hand-built callsite) among those",
+                   value needs escape?, F8-affected?, macro-corpus vs hand-built callsite) among those; plus the `conc` rounds: 2..4 threads record disjoint fields (1..3 times each, \
+                   numbers / strings needing escapes / bools / slow Debug values) on clones of one span, then every written line and the span object of a later event are judged",
             assumptions: vec![
                 "field names colliding with the formatter's own keys (timestamp, level, fields, target, filename, line_number, span, spans, threadName, threadId; \
                  name/field/field_error inside span objects; log.* names) or with each other after r#-stripping are not generated".into(),
